@@ -321,6 +321,9 @@ func scenariosOf(pr pairT, thorough bool) []scenT {
 		out = append(out, scenT{Pair: pr, Peer: f})
 	}
 	out = append(out, scenT{Pair: pr, Peer: "stale-and-best", Peers: 2})
+	if pr.B-pr.A > 2*pr.n() && pr.B >= 5 {
+		out = append(out, scenT{Pair: pr, Peer: "tall-low-prevoted-and-best"})
+	}
 	if pr.A >= 2 && pr.A <= 2*pr.n()-1 && pr.B-pr.A <= 2 {
 		// histories of two failed fast syncs on the same node, the second forking higher than the first
 		out = append(out, scenT{Pair: pr, Peer: "two-failed-fast-syncs"})
@@ -508,6 +511,30 @@ func runScenario(r *vlib.Run, fx *pairFixture, sc scenT, report func(key, what s
 		}
 		replay(bn, fx.bChain[1:])
 		peers = append(peers, peerT{conn: bn.Conn, close: bn.Close})
+	case sc.Peer == "tall-low-prevoted-and-best":
+		// a second peer whose chain is higher but less prevoted than the offered one: after the common prefix a single
+		// validator forges every second slot, so the height grows while maxHeightPrevoted stays behind
+		xn, err := node.New(convCfg(pr.n(), false, ""))
+		if err != nil {
+			panic(err)
+		}
+		defer xn.Close()
+		replay(xn, fx.common)
+		for int(xn.Tip().Header.Height) < tipH+3 {
+			if _, err := xn.ApplyMenu(6, 4); err != nil {
+				panic("harness: cannot build the single-generator chain: " + err.Error())
+			}
+		}
+		xChain := chainOf(xn)
+		xTip, bestTip := xChain[len(xChain)-1].Header, fx.bChain[tipH].Header
+		if !(xTip.Height > bestTip.Height && xTip.MaxHeightPrevoted < bestTip.MaxHeightPrevoted) {
+			r.Add("tall_low_prevoted_fixture_not_applicable", 1)
+			return
+		}
+		spx := newScripted(xChain, xn, "", 0)
+		cx := newClient(a.Cfg.ChainID, "peer-tall", spx.handlers())
+		peers = append(peers, peerT{conn: cx, close: func() { cx.Stop() }, sp: spx})
+		addScripted("peer-best", "", 0, tipH)
 	case sc.Peers >= 2:
 		stale := tipH - 2
 		if stale < pr.P {
@@ -555,7 +582,7 @@ func runScenario(r *vlib.Run, fx *pairFixture, sc scenT, report func(key, what s
 		r.Add("block_sync_scenarios", 1)
 	}
 	banned := !a.Conn.VerifAllowed(hp.Addrs()[0])
-	honest := sc.Peers >= 2 || sc.Peer == "real-node" || sc.Peer == "scripted-honest" || sc.Peer == "one-block-per-request" || sc.Peer == "descending-order"
+	honest := sc.Peers >= 2 || sc.Peer == "tall-low-prevoted-and-best" || sc.Peer == "real-node" || sc.Peer == "scripted-honest" || sc.Peer == "one-block-per-request" || sc.Peer == "descending-order"
 
 	// whatever happened, A's database must be the one a node reaches by applying A's current chain
 	final := chainOf(a)
